@@ -539,6 +539,71 @@ class SelectionBehemoth(Selection):
         super().__init__(own, sub)
 
 
+class SelectionMultiRef(Selection):
+    """query-marker selection from THREE reference-marker files (each tied to
+    its own precomputed-stats file): `create_marker_gene_lookup_from_mapping`
+    gives every parent to the file that holds most of its cells, so the root
+    and the first class are selected from file A, the second class from file
+    B, the third from file C - one `select_all_markers` call (and its
+    workers) per file.  The files are copies of the sequentially made ones
+    with the `n_cells` of one class boosted."""
+    name = 'selection.multiRef'
+
+    def __init__(self, prob, d):
+        import random
+        own = RefProblem(random.Random(prob.seed), group_sizes=[3, 3, 2])
+        sub = pathlib.Path(d) / 'multiref'
+        sub.mkdir(exist_ok=True)
+        super().__init__(own, sub)
+
+    def prepare(self):
+        import shutil
+        base_ref = self.ref_marker_file()
+        base_stats = self.stats_file()
+        top = self.prob.hierarchy[0]
+        classes = list(self.prob.tree[top].keys())
+        self.ref_paths = []
+        for i, cls in enumerate(classes):
+            stats = self.d / ('stats_ref%d.h5' % i)
+            ref = self.d / ('refmarkers_ref%d.h5' % i)
+            if not ref.is_file():
+                shutil.copy(base_stats, stats)
+                shutil.copy(base_ref, ref)
+                with h5py.File(stats, 'a') as dst:
+                    c2r = json.loads(dst['cluster_to_row'][()].decode('utf-8'))
+                    n_cells = dst['n_cells'][()]
+                    boost = 1000 if i == 0 else 100
+                    for leaf in self.prob.tree[top][cls]:
+                        n_cells[c2r[leaf]] *= boost
+                    dst['n_cells'][:] = n_cells
+                with h5py.File(ref, 'a') as dst:
+                    del dst['metadata']
+                    dst.create_dataset('metadata', data=json.dumps(
+                        {'precomputed_path': str(stats)}).encode('utf-8'))
+            self.ref_paths.append(ref)
+        self.result = None
+
+    def run(self, n_processors):
+        from cell_type_mapper.type_assignment.marker_cache_v2 import (
+            create_marker_gene_lookup_from_ref_list)
+        self.result = None
+        self.result = create_marker_gene_lookup_from_ref_list(
+            reference_marker_path_list=list(self.ref_paths),
+            query_gene_names=list(self.prob.query_genes),
+            n_per_utility=2, n_per_utility_override=None,
+            n_processors=n_processors, behemoth_cutoff=1000000,
+            tmp_dir=self.tmp)
+
+    def accepts(self):
+        """complete = every parent of the taxonomy has its entry"""
+        if self.result is None:
+            return False
+        tt = self.prob.taxonomy_tree()
+        keys = set('None' if p is None else '%s/%s' % (p[0], p[1])
+                   for p in tt.all_parents)
+        return keys <= set(self.result.keys())
+
+
 class Transpose(StageRun):
     name = 'transpose'
     worker = ('cell_type_mapper.utils.csc_to_csr_parallel',
@@ -802,7 +867,8 @@ STAGES = {c.name: c for c in (Mapping, MappingCsvOnly, MappingLogOnly,
                               MappingJsonOnly, MappingH5Only, Stats,
                               StatsCopy, RefMarkers, RefMarkersTranspose,
                               PMask, PMarkers, PMarkersTranspose, Selection,
-                              SelectionBehemoth, Transpose)}
+                              SelectionBehemoth, SelectionMultiRef,
+                              Transpose)}
 
 
 def run_wide_canonical(prob_seed, workdir, n_proc=2):
